@@ -29,6 +29,9 @@ def Item.carried : Item → Prop
   | .key k => k.obj.kind ≠ .other ∧ k.obj.nonempty ∧ k.obj.members.Nodup
   | _ => True
 
+instance Item.decCarried (i : Item) : Decidable i.carried := by
+  cases i <;> unfold Item.carried <;> exact inferInstance
+
 /-- the dataset of a file: a snapshot starts in database 0 -/
 def FileE.keys (f : FileE) : List (Nat × KeyE) := keysFrom 0 f.items
 
@@ -55,5 +58,11 @@ def Holds (cfg : RCfg) (p : Nat × KeyE) (x : Bytes × Val × Nat) : Prop :=
   x.1 = p.2.key.val ∧ x.2.2 = ttlOf cfg.now p.2.exp.at ∧
   ((x.2.1 = p.2.obj.value ∧ (¬ viaRestore cfg p.2.obj ∨ p.2.obj.rtype = 4)) ∨
    (x.2.1 = .restored (createValueDump p.2.obj.rtype p.2.obj.ser) ∧ viaRestore cfg p.2.obj))
+
+/-- two lists of equal length whose elements are related position by position -/
+inductive Pointwise {α β : Type} (R : α → β → Prop) : List α → List β → Prop
+  | nil : Pointwise R [] []
+  | cons {a : α} {b : β} {as : List α} {bs : List β} :
+      R a b → Pointwise R as bs → Pointwise R (a :: as) (b :: bs)
 
 end GunYu.Rdb
